@@ -47,6 +47,8 @@ impl VM {
     pub fn collect(&mut self) {
         #[cfg(vbxq_aelys_lang_verif)]
         crate::verif::gc_collected(self.no_gc_depth);
+        #[cfg(vbxq_aelys_lang_verif)]
+        crate::verif::gc_audit(self, false);
         for frame in &self.frames {
             let base = frame.base;
             let count = frame.num_registers as usize;
@@ -84,5 +86,7 @@ impl VM {
         // call_site_cache is not cleared here; it's invalidated on global mutation
         // (set_global/set_global_by_index), which prevents use-after-free.
         self.globals_by_index_cache.clear();
+        #[cfg(vbxq_aelys_lang_verif)]
+        crate::verif::gc_audit(self, true);
     }
 }
